@@ -195,29 +195,37 @@ impl<'a, R: 'a + Read> CompressionLayerReader<'a, R> {
 
     /// Instantiate a new decompressor at position `uncompressed_pos`
     /// `uncompressed_pos` must be a compressed block's starting position
+    ///
+    /// On error, `inner` is given back to the caller
     fn new_decompressor_at<S: Read + Seek>(
         &self,
         inner: S,
         uncompressed_pos: u64,
-    ) -> Result<brotli::Decompressor<Take<S>>, Error> {
+    ) -> Result<brotli::Decompressor<Take<S>>, (S, Error)> {
         // Ensure it's a starting position
         if uncompressed_pos % u64::from(UNCOMPRESSED_DATA_SIZE) != 0 {
-            return Err(Error::BadAPIArgument(
-                "[new_decompressor_at] not a starting position".to_string(),
+            return Err((
+                inner,
+                Error::BadAPIArgument(
+                    "[new_decompressor_at] not a starting position".to_string(),
+                ),
             ));
         }
 
         // Check we are still in the stream
         if !self.pos_in_stream(uncompressed_pos) {
             // No more in the compressed stream -> nothing to read
-            return Err(Error::EndOfStream);
+            return Err((inner, Error::EndOfStream));
         }
 
         match &self.sizes_info {
             Some(sizes_info) => {
                 // Use index for faster decompression
                 let compressed_block_size =
-                    sizes_info.compressed_block_size_at(uncompressed_pos)? as usize;
+                    match sizes_info.compressed_block_size_at(uncompressed_pos) {
+                        Ok(size) => size as usize,
+                        Err(err) => return Err((inner, err)),
+                    };
                 Ok(brotli::Decompressor::new(
                     // Make the Decompressor work only on the compressed block's bytes, no more
                     inner.take(compressed_block_size as u64),
@@ -226,7 +234,7 @@ impl<'a, R: 'a + Read> CompressionLayerReader<'a, R> {
                     std::cmp::min(compressed_block_size, UNCOMPRESSED_DATA_SIZE as usize),
                 ))
             }
-            None => Err(Error::MissingMetadata),
+            None => Err((inner, Error::MissingMetadata)),
         }
     }
 
@@ -366,9 +374,27 @@ impl<'a, R: 'a + Read + Seek> Read for CompressionLayerReader<'a, R> {
         let old_state = std::mem::replace(&mut self.state, CompressionLayerReaderState::Empty);
         match old_state {
             CompressionLayerReaderState::Ready(mut inner) => {
-                self.sync_inner_with_uncompressed_pos(&mut inner, self.underlayer_pos)?;
-                let decompressor = Box::new(self.new_decompressor_at(inner, self.underlayer_pos)?);
-                let uncompressed_size = self.uncompressed_block_size_at(self.underlayer_pos)?;
+                // On error, the inner layer is put back: the reader remains usable
+                let prepared = self
+                    .uncompressed_block_size_at(self.underlayer_pos)
+                    .and_then(|uncompressed_size| {
+                        self.sync_inner_with_uncompressed_pos(&mut inner, self.underlayer_pos)?;
+                        Ok(uncompressed_size)
+                    });
+                let uncompressed_size = match prepared {
+                    Ok(uncompressed_size) => uncompressed_size,
+                    Err(err) => {
+                        self.state = CompressionLayerReaderState::Ready(inner);
+                        return Err(err.into());
+                    }
+                };
+                let decompressor = match self.new_decompressor_at(inner, self.underlayer_pos) {
+                    Ok(decompressor) => Box::new(decompressor),
+                    Err((inner, err)) => {
+                        self.state = CompressionLayerReaderState::Ready(inner);
+                        return Err(err.into());
+                    }
+                };
                 self.state = CompressionLayerReaderState::InData {
                     read: 0,
                     uncompressed_size,
@@ -394,7 +420,18 @@ impl<'a, R: 'a + Read + Seek> Read for CompressionLayerReader<'a, R> {
                     return self.read(buf);
                 }
                 let size = std::cmp::min((uncompressed_size - read) as usize, buf.len());
-                let read_add = decompressor.read(&mut buf[..size])?;
+                let read_add = match decompressor.read(&mut buf[..size]) {
+                    Ok(read_add) => read_add,
+                    Err(err) => {
+                        // Keep the state: the reader can still be seeked or dropped
+                        self.state = CompressionLayerReaderState::InData {
+                            read,
+                            uncompressed_size,
+                            decompressor,
+                        };
+                        return Err(err);
+                    }
+                };
                 self.underlayer_pos += read_add as u64;
                 self.state = CompressionLayerReaderState::InData {
                     read: read
@@ -434,6 +471,16 @@ impl<R: Read + Seek> Seek for CompressionLayerReader<'_, R> {
                         let inside_block = pos % u64::from(UNCOMPRESSED_DATA_SIZE);
                         let rounded_pos = pos - inside_block;
 
+                        // Errors are detected before the inner layer is moved into a
+                        // new decompressor, or the inner layer is put back: the
+                        // reader remains usable after a failed seek
+                        if matches!(self.state, CompressionLayerReaderState::Empty) {
+                            return Err(Error::WrongReaderState(
+                                "[Compression Layer] Seek in an inconsistent state".to_string(),
+                            )
+                            .into());
+                        }
+
                         // Move the underlayer at the start of the block
                         let old_state =
                             std::mem::replace(&mut self.state, CompressionLayerReaderState::Empty);
@@ -445,14 +492,38 @@ impl<R: Read + Seek> Seek for CompressionLayerReader<'_, R> {
                             self.underlayer_pos = pos;
                             return Ok(pos);
                         }
-                        self.sync_inner_with_uncompressed_pos(&mut inner, rounded_pos)?;
+                        let prepared = self
+                            .uncompressed_block_size_at(rounded_pos)
+                            .and_then(|uncompressed_size| {
+                                self.sync_inner_with_uncompressed_pos(&mut inner, rounded_pos)?;
+                                Ok(uncompressed_size)
+                            });
+                        let uncompressed_size = match prepared {
+                            Ok(uncompressed_size) => uncompressed_size,
+                            Err(err) => {
+                                self.state = CompressionLayerReaderState::Ready(inner);
+                                return Err(err.into());
+                            }
+                        };
 
                         // New decompressor at the start of the block
-                        let mut decompressor = self.new_decompressor_at(inner, rounded_pos)?;
-                        let uncompressed_size = self.uncompressed_block_size_at(rounded_pos)?;
+                        let mut decompressor = match self.new_decompressor_at(inner, rounded_pos) {
+                            Ok(decompressor) => decompressor,
+                            Err((inner, err)) => {
+                                self.state = CompressionLayerReaderState::Ready(inner);
+                                return Err(err.into());
+                            }
+                        };
 
                         // Move forward inside the block to reach the expected position
-                        io::copy(&mut (&mut decompressor).take(inside_block), &mut io::sink())?;
+                        if let Err(err) =
+                            io::copy(&mut (&mut decompressor).take(inside_block), &mut io::sink())
+                        {
+                            self.state = CompressionLayerReaderState::Ready(
+                                decompressor.into_inner().into_inner(),
+                            );
+                            return Err(err);
+                        }
                         self.state = CompressionLayerReaderState::InData {
                             read: u32::try_from(inside_block).map_err(|_| {
                                 io::Error::new(
